@@ -176,7 +176,7 @@ func c05Run(ops []c05Op, naddr int) (res c05Result, fail string) {
 }
 
 func TestC05(t *testing.T) {
-	V.Rule("unit: add/remove/dispatch histories on the round-robin pool with recording doubles - exhaustive for all sequences up to length 6 (thorough: 7) over 4 addresses (never adding a present address; removing an absent one allowed), rapid state-machine histories up to 400 steps over 5 addresses with dispatch bursts, histories up to 40 steps over the real UDP/TCP backend objects (one local address, receptions observed at harness sockets, closed-socket check on removal; the pool assembled from the constructors or, as the running proxy does, by CreateRoundRobinBackend over backend URLs and changed through hostIPChanged), and racing plans (dispatch goroutines vs add/remove goroutines, logical clock). non-trivial = history with a segment of k>=2 backends and >=k+1 dispatches that follows a removal; distinct by op string / plan")
+	V.Rule("unit: add/remove/dispatch histories on the round-robin pool with recording doubles - exhaustive for all sequences up to length 6 (thorough: 7) over 4 addresses (never adding a present address; removing an absent one allowed), rapid state-machine histories up to 400 steps over 5 addresses with dispatch bursts, histories up to 40 steps over the real UDP/TCP backend objects (one local address, receptions observed at harness sockets, closed-socket check on removal; now and then a registered UDP backend's socket closed for one round of dispatches and bound again; the pool assembled from the constructors or, as the running proxy does, by CreateRoundRobinBackend over backend URLs and changed through hostIPChanged), and racing plans (dispatch goroutines vs add/remove goroutines, logical clock). non-trivial = history with a segment of k>=2 backends and >=k+1 dispatches that follows a removal; distinct by op string / plan")
 	V.Assume("across a membership change the property fixes nothing about where the rotation resumes, so the oracle does not either")
 	V.Require("segment after removal", "dispatch on empty pool", "remove absent address")
 
@@ -440,7 +440,7 @@ func c05Real(t *testing.T) {
 	if os.Getenv("VERIF_RACE") != "" {
 		return
 	}
-	V.Require("real sockets: pool built by CreateRoundRobinBackend, changed through hostIPChanged", "real sockets: dispatch after a removal", "real sockets: backend added after a removal", "real sockets: tcp backend")
+	V.Require("real sockets: a registered udp backend down for one round, then back", "real sockets: pool built by CreateRoundRobinBackend, changed through hostIPChanged", "real sockets: dispatch after a removal", "real sockets: backend added after a removal", "real sockets: tcp backend")
 	n := labReserve()
 	hub := newLabHub()
 	const naddr = 5
@@ -519,6 +519,27 @@ func c05Real(t *testing.T) {
 		for i := 0; i < steps; i++ {
 			op := rapid.IntRange(0, 5).Draw(rt, "op")
 			a := rapid.IntRange(0, naddr-1).Draw(rt, "addr")
+			if _, present := cur[a]; present && targets[a].proto == "udp" && len(cur) >= 2 && rapid.IntRange(0, 9).Draw(rt, "a registered udp backend is down for a moment") == 0 {
+				// The backend's socket is closed while one round of dispatches passes (its
+				// datagram is answered with ICMP port unreachable; what happens to that
+				// round is not judged), then it is bound again: the rotation goes on over
+				// all registered backends, nothing is lost and nothing fails.
+				targets[a].ep.goDownUDP()
+				for j := 0; j < len(cur); j++ {
+					rb.Send(req)
+				}
+				time.Sleep(3 * time.Millisecond)
+				ep, err := hub.udpEP("backend", targets[a].ip, 5080)
+				if err != nil {
+					V.HarnessError(rt, "endpoint cannot bind again: %v", err)
+				}
+				targets[a].ep = ep
+				time.Sleep(time.Millisecond)
+				hub.drain()
+				seg = nil
+				hist = append(hist, fmt.Sprintf("down/up%d", a))
+				V.Class("real sockets: a registered udp backend down for one round, then back")
+			}
 			switch {
 			case op == 0 || (op <= 2 && len(cur) == 0): // add (never a present address)
 				if _, present := cur[a]; present {
